@@ -26,7 +26,7 @@ from mc.drivers import pipeline as P
 
 ID = "C08"
 LEVEL = "exploration"
-BUDGET = {"quick": 150, "thorough": 900}
+BUDGET = {"quick": 300, "thorough": 900}
 CHUNK = 6
 RULE = (
     "level 0: pipeline [matching cost, wta, cross-check] x every matching-cost configuration (4 measures x windows "
@@ -48,7 +48,8 @@ ASSUMPTIONS = [
     "2-band images (bands 'r','g', matching on 'g') only where the pinned library runs them: no cbca, and subpix 1 "
     "for sad/ssd; when both runs of a pair raise the same exception type the case is counted trivial, when only one "
     "raises it is a violation",
-    "optimization, semantic_segmentation (no built-in method) and multiscale (A1) are not generated",
+    "optimization and semantic_segmentation (no built-in method) are not generated; multiscale pipelines (since the A1 "
+    "repair) form a space of their own: scalar intervals, subpix 1, images of 20x26 pixels",
     "quick: pipelines of length <= 5; thorough: length <= 6 (DESIGN asked <= 6 / <= 7: the 7-step level has "
     "1.2e5 pipelines x 4 measures, beyond the 15 min budget)",
     "compared: disparity_map, validity_mask, confidence_measure and the indicator names; attributes and "
@@ -118,6 +119,26 @@ def spaces(tier, seed):
                               fixed=(cfg["window_size"], cfg["subpix"], disp, rdisp)))
             i += 1
     out = [{"name": "mirror: base pipeline x matching-cost configuration x interval form", "level": 0, "cases": base}]
+    # ---- multiscale pipelines (multiscale accepts scalar integer intervals only)
+    ms_tails = [["wta", "cross", "ms2"], ["wta", "ms2", "cross"], ["wta", "vfit", "cross", "ms2", "median"],
+                ["wta", "cross_mccnn", "ms2"], ["wta", "median", "cross", "ms3"], ["cbca", "wta", "cross", "ms2", "vfit"],
+                ["std", "wta", "cross_sgm", "ms2", "bilateral"]]
+    if tier == "thorough":
+        ms_tails += [["wta", "cross", "ms3", "quad"], ["amb", "wta", "quad", "cross", "ms2"],
+                     ["wta", "bilateral", "cross0", "ms2", "cross"]]
+    ms = []
+    for tail in ms_tails:
+        for method in legal.MC_METHODS:
+            for w in ((3,) if tier == "quick" else (1, 3, 5)):
+                for disp in ([-2, 2], [0, 3], [-4, -1], [1, 5]):
+                    for rdisp in ("none", "explicit"):
+                        if method == "census" and w == 1:
+                            continue
+                        c = _case("mirror", i, seed, method, tail, fixed=(w, 1, disp, rdisp))
+                        c.update({"ny": 20, "nx": 26, "bands": 1})
+                        ms.append(c)
+                        i += 1
+    out.append({"name": "mirror: pipelines with a multiscale step", "level": 2, "cases": ms})
     # ---- levels 1..: every pipeline shape with a validation step, by number of extra steps
     shapes = [s for s in legal.shapes(min(max_extra, 2) + 1, cv, dm) if legal.has_validation(s)]
     if max_extra > 2:
